@@ -273,3 +273,53 @@ CASES["C11"] = [
      "        if op.memory_space is None:\n            raise RuntimeError(\"Allocations need a defined memory space\")\n\n        size_attr = op.size.op.value\n        assert isa(size_attr, IntegerAttr[IndexType])\n        size = size_attr.value.data\n\n        alignment_attr = op.alignment\n        if alignment_attr is None:\n            alignment = 0\n        else:\n            alignment = alignment_attr.value.data\n\n        # get the memory space", ["C11.static-size"]),
     ("twin: capacity test spelled with not/<=", "twin", SALLOC, "if next_address > memory.start + memory.capacity:", "if not next_address <= memory.start + memory.capacity:", []),
 ]
+
+BARRIER = "snaxc/transforms/insert_sync_barrier.py"
+DRULES = "snaxc/util/dispatching_rules.py"
+DISPATCH = "snaxc/transforms/dispatch_regions.py"
+TOFUNC = "snaxc/transforms/snax_to_func.py"
+MAINPY = "snaxc/tools/snaxc_main.py"
+
+_BE = ("                        if op_in_module.parent_op() == op_use.operation.parent_op() and isinstance(\n"
+       "                            for_op := op_in_module.parent_op(), scf.ForOp\n"
+       "                        ):\n"
+       "                            assert isinstance(for_op.body.block.last_op, scf.YieldOp)\n"
+       "                            ops_to_sync.append(for_op.body.block.last_op)\n")
+
+CASES["C13"] = [
+    ("polarity: consumer on the same core", "mutant", BARRIER, "if dispatch_to_dm(op_in_module, ctx) and not dispatch_to_dm(op_use.operation, ctx):", "if dispatch_to_dm(op_in_module, ctx) and dispatch_to_dm(op_use.operation, ctx):", ["C13.symmetric"]),
+    ("barrier inserted after the pending op", "mutant", BARRIER, "rewriter.insert_op(sync_op, InsertPoint.before(op_in_module))", "rewriter.insert_op(sync_op, InsertPoint.after(op_in_module))", ["C13.symmetric"]),
+    ("compute direction dropped", "mutant", BARRIER, "if dispatch_to_compute(op_in_module, ctx) and not dispatch_to_compute(op_use.operation, ctx):", "if False and dispatch_to_compute(op_in_module, ctx) and not dispatch_to_compute(op_use.operation, ctx):", ["C13.symmetric", "internal"]),
+    ("func.CallOp dispatchable to dm", "mutant", DRULES, "    if isinstance(op, memref.CopyOp):\n        return True\n", "    if isinstance(op, memref.CopyOp):\n        return True\n    if isinstance(op, func.CallOp):\n        return True\n", ["C13.barrier-undispatchable"]),
+    ("dm rule true for everything in a loop", "mutant", DRULES, "    if isinstance(op, memref.CopyOp):\n        return True\n", "    if isinstance(op, memref.CopyOp):\n        return True\n    if op.parent_op() is not None and op.parent_op().name == 'scf.for':\n        return True\n", ["C13.barrier-undispatchable"]),
+    ("dispatcher collects unconditionally", "mutant", DISPATCH, "                if dispatch_rule(op):\n                    ops_to_dispatch.append(op)\n", "                ops_to_dispatch.append(op)\n", ["C13.guard-only-dispatchable"]),
+    ("barrier lowered to nothing", "mutant", TOFUNC, "        rewriter.replace_op(func_op, func_call)\n", "        rewriter.erase_op(func_op)\n", ["C13.barrier-survives", "internal"]),
+    ("DispatchRegions before the last InsertSyncBarrier", "mutant", MAINPY, "        pass_pipeline.append(InsertSyncBarrier())\n        pass_pipeline.append(DispatchRegions())\n", "        pass_pipeline.append(DispatchRegions())\n        pass_pipeline.append(InsertSyncBarrier())\n", ["C13.order"]),
+    ("allocation moved between barrier and dispatch", "mutant", MAINPY, "        pass_pipeline.append(SnaxAllocatePass(self.args.alloc_mode))\n        pass_pipeline.append(InsertSyncBarrier())\n        pass_pipeline.append(DispatchRegions())\n", "        pass_pipeline.append(InsertSyncBarrier())\n        pass_pipeline.append(SnaxAllocatePass(self.args.alloc_mode))\n        pass_pipeline.append(DispatchRegions())\n", ["C13.order"]),
+    ("second barrier pass only without debug", "mutant", MAINPY, "        pass_pipeline.append(SnaxAllocatePass(self.args.alloc_mode))\n        pass_pipeline.append(InsertSyncBarrier())\n", "        pass_pipeline.append(SnaxAllocatePass(self.args.alloc_mode))\n        if not self.args.debug:\n            pass_pipeline.append(InsertSyncBarrier())\n", ["C13.order"]),
+    ("twin: dispatcher guard via local", "twin", DISPATCH, "                if dispatch_rule(op):\n                    ops_to_dispatch.append(op)\n", "                must_dispatch = dispatch_rule(op)\n                if must_dispatch:\n                    ops_to_dispatch.append(op)\n", []),
+]
+CASES["C13"] += [
+    ("back-edge clause deleted in dm direction", "mutant", BARRIER, "                        ops_to_sync.append(op_use.operation)\n" + _BE + "\n                    if dispatch_to_compute", "                        ops_to_sync.append(op_use.operation)\n\n                    if dispatch_to_compute", ["C13.symmetric"]),
+]
+
+CASES["C14"] = [
+    ("compute constant 1", "mutant", DISPATCH, "cst_0 := arith.ConstantOp.from_int_and_width(0, builtin.i32),", "cst_0 := arith.ConstantOp.from_int_and_width(1, builtin.i32),", ["C14.conditions"]),
+    ("predicate ne", "mutant", DISPATCH, 'comparison_dm := arith.CmpiOp(func_call, cst_1, "eq"),', 'comparison_dm := arith.CmpiOp(func_call, cst_1, "ne"),', ["C14.conditions"]),
+    ("dm core = nb_cores", "mutant", DISPATCH, "arith.ConstantOp.from_int_and_width(self.nb_cores - 1, builtin.i32)", "arith.ConstantOp.from_int_and_width(self.nb_cores, builtin.i32)", ["C14.conditions"]),
+    ("rules crossed", "mutant", DISPATCH, "dispatcher(block, comparison_dm.result, lambda x: dispatch_to_dm(x, self.ctx))", "dispatcher(block, comparison_compute_early.result, lambda x: dispatch_to_dm(x, self.ctx))", ["C14.conditions"]),
+    ("reintroduce F-22 (lazy any over blocks)", "mutant", DISPATCH, "@revert:fffb8de", "", ["C14.all-blocks"]),
+    ("append unconditionally", "mutant", DISPATCH, "                if dispatch_rule(op):\n                    ops_to_dispatch.append(op)\n", "                ops_to_dispatch.append(op)\n", ["C14.wrap"]),
+    ("parent test dropped from flush", "mutant", DISPATCH, "if len(ops_to_dispatch) and (not dispatch_rule(op) or op.parent is not ops_to_dispatch[-1].parent):", "if len(ops_to_dispatch) and not dispatch_rule(op):", ["C14.wrap"]),
+    ("if inserted at the last op", "mutant", DISPATCH, "rewriter.insert_op(if_op, InsertPoint.before(ops_to_dispatch[0]))", "rewriter.insert_op(if_op, InsertPoint.before(ops_to_dispatch[-1]))", ["C14.wrap"]),
+    ("reset without moving when group is a single op", "mutant", DISPATCH,
+     "                    for dispatch_op in ops_to_dispatch:\n                        dispatch_op.detach()\n                        rewriter.insert_op(dispatch_op, InsertPoint.before(yield_op))\n",
+     "                    if len(ops_to_dispatch) > 1:\n                        for dispatch_op in ops_to_dispatch:\n                            dispatch_op.detach()\n                            rewriter.insert_op(dispatch_op, InsertPoint.before(yield_op))\n", ["C14.wrap"]),
+    ("twin: docstring edit", "twin", DISPATCH, '            """Helper function to create dispatches in a block.', '            """Helper function to create dispatches in a block (skips nothing).', []),
+    ("private functions skipped", "mutant", DISPATCH, "        def dispatcher(\n            block: Block,", "        if func_op.sym_visibility is not None and func_op.sym_visibility.data == \"private\":\n            return\n\n        def dispatcher(\n            block: Block,", ["C14.all-blocks"]),
+    ("ConvertLinalgToAccPass before DispatchRegions", "mutant", MAINPY, "        pass_pipeline.append(DispatchRegions())\n        pass_pipeline.append(DartLayoutResolutionPass())\n        pass_pipeline.append(ConvertDartToSnaxStream())\n        pass_pipeline.append(ConvertLinalgToAccPass())\n",
+     "        pass_pipeline.append(ConvertLinalgToAccPass())\n        pass_pipeline.append(DispatchRegions())\n        pass_pipeline.append(DartLayoutResolutionPass())\n        pass_pipeline.append(ConvertDartToSnaxStream())\n", ["C14.order"]),
+    ("twin: blocks dispatched in an explicit loop", "twin", DISPATCH,
+     "        if any(\n            [\n                dispatcher(block, comparison_dm.result, lambda x: dispatch_to_dm(x, self.ctx))\n                for block in func_op.body.blocks\n            ]\n        ):\n",
+     "        changed_dm = False\n        for block in func_op.body.blocks:\n            changed_dm = dispatcher(block, comparison_dm.result, lambda x: dispatch_to_dm(x, self.ctx)) or changed_dm\n        if changed_dm:\n", []),
+]
